@@ -296,7 +296,8 @@ def main():
         if arm is None:
             problem("run_session: InputAction::Tool arm not found")
         else:
-            m2 = re.search(r"\bif\s+requires_workspace_lock\s*\(\s*&invocation\.name\s*\)\s*", arm)
+            # the condition must be exactly the classification (nothing and-ed / or-ed to it)
+            m2 = re.search(r"(?<![!\w])if\s+requires_workspace_lock\s*\(\s*&invocation\.name\s*\)\s*(?=\{)", arm)
             if not m2:
                 problem("run_session: `if requires_workspace_lock(&invocation.name)` not found")
             else:
@@ -318,7 +319,7 @@ def main():
         else:
             spans["ckpt"] = span_of(arm, "ckpt", "session.rs checkpoint")
         # agent loop
-        m2 = re.search(r"\belse\s+if\s+requires_workspace_lock\s*\(\s*&invocation\.name\s*\)\s*", lp)
+        m2 = re.search(r"\belse\s+if\s+requires_workspace_lock\s*\(\s*&invocation\.name\s*\)\s*(?=\{)", lp)
         if not m2:
             problem("agent loop: `else if requires_workspace_lock(&invocation.name)` not found")
         else:
